@@ -109,6 +109,78 @@ def is_valid(o):
         return False
 
 
+def fresh(fn):
+    """run fn() in a forked copy of this process and return its (JSON) result.  Called while this process has not yet
+    validated anything, the child is as good as a fresh interpreter: class-level caches filled later cannot reach it."""
+    import os
+    r, w = os.pipe()
+    pid = os.fork()
+    if pid == 0:
+        try:
+            os.close(r)
+            try:
+                out = fn()
+            except BaseException as e:  # noqa
+                out = {"fresh_error": type(e).__name__ + ": " + str(e)[:200]}
+            data = json.dumps(out).encode()
+            while data:
+                n = os.write(w, data)
+                data = data[n:]
+        finally:
+            os._exit(0)
+    os.close(w)
+    chunks = []
+    while True:
+        b = os.read(r, 1 << 16)
+        if not b:
+            break
+        chunks.append(b)
+    os.close(r)
+    os.waitpid(pid, 0)
+    try:
+        return json.loads(b"".join(chunks).decode())
+    except Exception:  # noqa
+        return {"fresh_error": "no result"}
+
+
+def class_oracle(cls_name, kw_tree):
+    """what the factory should make of (class, keywords), judged in a fresh process: the component constructed
+    directly (+ setup_nml_cell for Cell), its validate() verdict, whether str() works"""
+    def work():
+        r = {}
+        cls = getattr(nml, cls_name)
+        kw = {k: conv(v) for k, v in kw_tree}
+        probe = cls(**kw)
+        if cls_name == "Cell":
+            probe.setup_nml_cell()
+            r["cell"] = dump(probe)
+        r["direct"] = dump(probe)
+        r["vchild"] = is_valid(probe)
+        r["str_ok"] = str_ok(probe)
+        return r
+    return fresh(work)
+
+
+def class_attr_snapshot():
+    """names in the class dictionaries of the binding classes and their runtime bases"""
+    out = {}
+    for n in dir(nml):
+        c = getattr(nml, n, None)
+        if isinstance(c, type) and (hasattr(c, "member_data_items_") or n in ("GeneratedsSuper", "GeneratedsSuperSuper")):
+            out[n] = set(vars(c).keys())
+    return out
+
+
+def class_attr_diff(before):
+    after = class_attr_snapshot()
+    new = {}
+    for n, keys in after.items():
+        d = sorted(keys - before.get(n, set()))
+        if d:
+            new[n] = d
+    return new
+
+
 def str_ok(o):
     try:
         str(o)
@@ -180,16 +252,16 @@ def run_call(parent, call, objs, real_stdout):
         cls = getattr(nml, ch["cls"], None)
         kwargs = {k: conv(v) for k, v in ch["kw"]}
         child = ch["cls"] if ch["form"] == "str" else cls
-        # oracle for the model's abstract parts: a fresh instance made the way the factory makes it
-        try:
-            probe = cls(**kwargs)
-            if ch["cls"] == "Cell":
-                probe.setup_nml_cell()
-                r["cell"] = dump(probe)
-            r["vchild"] = is_valid(probe)
-            r["str_ok"] = str_ok(probe)
-        except Exception:  # noqa
+        # oracle for the model's abstract parts: the component made the way the factory makes it, judged in a fresh
+        # process (computed by main() before anything was validated here)
+        o = call.get("_oracle") or {}
+        if "fresh_error" in o or not o:
             r["vchild"] = False
+        else:
+            r["vchild"] = o["vchild"]
+            r["str_ok"] = o["str_ok"]
+            if "cell" in o:
+                r["cell"] = o["cell"]
     objs.append(child)
     if ch["kind"] in ("obj", "same"):
         r["child"] = dump(child)
@@ -205,7 +277,13 @@ def run_call(parent, call, objs, real_stdout):
     with warnings.catch_warnings(record=True) as ws:
         warnings.simplefilter("always")
         try:
-            ret = parent.add(child, hint=call["hint"], force=call["force"], validate=call["validate"], **kwargs)
+            conv_ = call.get("conv", "kw")
+            if conv_ == "pos":
+                ret = parent.add(child, call["hint"], call["force"], call["validate"], **kwargs)
+            elif conv_.startswith("alias:"):
+                ret = parent.add(child, hint=call["hint"], validate=call["validate"], **{conv_.split(":", 1)[1]: call["force"]}, **kwargs)
+            else:
+                ret = parent.add(child, hint=call["hint"], force=call["force"], validate=call["validate"], **kwargs)
             r["code"] = [20 if ret is None else 0, []]
         except BaseException as e:  # noqa
             r["code"] = classify(e)
@@ -245,6 +323,11 @@ def main():
     sys.stdout = io.StringIO()
     res = []
     initial = btv.ENABLED
+    attrs0 = class_attr_snapshot()
+    for case in P["cases"]:      # fresh-process oracles first, while this process is pristine
+        for call in case["calls"]:
+            if call["child"]["kind"] == "cls" and hasattr(nml, call["child"]["cls"]):
+                call["_oracle"] = class_oracle(call["child"]["cls"], call["child"]["kw"])
     try:
         for case in P["cases"]:
             out = {"calls": []}
@@ -264,7 +347,7 @@ def main():
             res.append(out)
     finally:
         sys.stdout = real_stdout
-    print(json.dumps({"results": res}))
+    print(json.dumps({"results": res, "new_class_attrs": class_attr_diff(attrs0)}))
 
 
 if __name__ == "__main__":
